@@ -1,7 +1,8 @@
 (* Props/C09.v — pinned statements for property C09 (scoping errors are found
    before anything runs, and only real ones).  Statements closed by [exact lemma],
    non-vacuity Examples, and [Print Assumptions]. *)
-From RJ Require Import Base.Outcome Model.Token Model.Ast Model.Ir Model.Analyze Proofs.Analyze_proofs.
+From RJ Require Import Base.Outcome Model.Token Model.Ast Model.Ir Model.Analyze Proofs.Analyze_proofs
+  Proofs.AnalyzeRt_proofs.
 Local Open Scope N_scope.
 
 (* The analyzer (mirror of program/analyze.rs) accepts a program exactly when
@@ -41,6 +42,26 @@ Theorem C09_object_locals_mutual : forall sp ms vs io ts b,
   is_ok (analyze_bind_with analyze_expr (mk_env true (map bind_name (member_locals ms) ++ vs)) b) = true.
 Proof. exact object_locals_mutual. Qed.
 
+(* whatever the analyzer accepts is closed in its static scope: every variable
+   of the IR is bound by an IR binder or is in [vs]; self/$/super only under an
+   object *)
+Theorem C09_analyze_closed : forall e vs io ts i,
+  analyze_expr e (mk_env io vs) ts = Ok i -> Closed vs io i.
+Proof. exact analyze_closed. Qed.
+
+(* run-time half, over the environment discipline of the evaluator ([walk]
+   visits every sub-expression in the frames eval/mod.rs and data.rs build, and
+   performs ThunkEnv::get_var / get_object where the evaluator would): on a
+   closed IR, in any run-time environment covering the static scope, no lookup
+   reaches the 'variable not found' panic or the get_object unwrap *)
+Theorem C09_walk_no_unbound : forall i L io r,
+  Closed L io i -> covers r L io -> walk r i = Ok tt.
+Proof. exact walk_no_unbound. Qed.
+
+Theorem C09_analyze_walk_no_unbound : forall e vs io ts i r,
+  analyze_expr e (mk_env io vs) ts = Ok i -> covers r vs io -> walk r i = Ok tt.
+Proof. exact analyze_walk_no_unbound. Qed.
+
 (* ---- non-vacuity ---- *)
 Definition sp0 : span := (0, 0).
 Definition idn (n : N) : ident := {| id_value := [n]; id_span := (n, n + 1) |}.
@@ -72,10 +93,33 @@ Example C09_nonvacuous_err :
   analyze (ENumber sp0 {| num_digits := []; num_exp := 0 |}) [] = Panic "analyze.rs:analyze_expr:number parse unwrap".
 Proof. vm_compute. repeat split. Qed.
 
+(* the top-level environment of load_source ({std}, no object) covers ["std"];
+   walking  local a = std; function(b = a) [b, a]  in it succeeds, and the same IR
+   walked in an empty environment hits the panic site: the hypothesis matters *)
+Definition std_name : str := [115; 116; 100].
+Example C09_nonvacuous_walk :
+  let e := ELocal sp0 [MkBind (idn 97) None (EIdent sp0 {| id_value := std_name; id_span := sp0 |})]
+             (EFunc sp0 [MkParam (idn 98) (Some (var 97))] (EArray sp0 [var 98; var 97])) in
+  let top := RtEnv None [std_name] false in
+  covers top [std_name] false /\
+  (exists i, analyze e [std_name] = Ok i /\ Closed [std_name] false i /\ walk top i = Ok tt /\
+             walk (RtEnv None [] false) i = Panic "data.rs:ThunkEnv::get_var:variable not found").
+Proof.
+  intros e top. split.
+  - split; [| discriminate]. intros x [<-|[]]. vm_compute. reflexivity.
+  - destruct (analyze e [std_name]) as [i| | |] eqn:E; try (vm_compute in E; discriminate).
+    exists i. split; [reflexivity|]. split; [exact (C09_analyze_closed _ _ _ _ _ E)|].
+    vm_compute in E. injection E as <-. vm_compute. split; reflexivity.
+Qed.
+
 Print Assumptions C09_analyze_exact.
 Print Assumptions C09_analyze_no_panic.
 Print Assumptions C09_field_name_sees_outer_scope.
 Print Assumptions C09_comp_vars_left_to_right.
 Print Assumptions C09_object_locals_mutual.
+Print Assumptions C09_analyze_closed.
+Print Assumptions C09_walk_no_unbound.
+Print Assumptions C09_analyze_walk_no_unbound.
 Print Assumptions C09_nonvacuous_ok.
 Print Assumptions C09_nonvacuous_err.
+Print Assumptions C09_nonvacuous_walk.
